@@ -80,12 +80,28 @@ pub fn iter_handlers_from_node<'a, 'b, 'c, C: ServerContext>(node: &'a HttpRoute
     where 'a: 'c, 'b: 'c
     ensures mrem(r) == own_pairs(*node, version)
 { unimplemented!() }
-impl<'a, Context: ServerContext> HttpRouterIter<'a, Context> {
-    /// HttpRouterIter::path renders the labels on the stack (above the placeholder) as text (format!/join: not
-    /// verified): some function `render` of the route
+/// `format!(TEMPLATE, ARG)` (W6b): an uninterpreted function of the template and of the argument's text
+pub uninterp spec fn fmt_spec(template: Seq<char>, arg: Seq<char>) -> Seq<char>;
+pub trait HasText { spec fn text(&self) -> Seq<char>; }
+impl HasText for String { open spec fn text(&self) -> Seq<char> { self@ } }
+impl HasText for &String { open spec fn text(&self) -> Seq<char> { (*self)@ } }
+#[verifier::external_body]
+pub fn fmt1<A: HasText>(template: &str, arg: &A) -> (r: String) ensures r@ == fmt_spec(template@, arg.text()) { unimplemented!() }
+/// `[String]::join(sep)`: an uninterpreted function of the pieces' texts and the separator
+pub uninterp spec fn join_spec(pieces: Seq<Seq<char>>, sep: Seq<char>) -> Seq<char>;
+pub open spec fn texts_of(v: Seq<String>) -> Seq<Seq<char>> { Seq::new(v.len(), |i: int| v[i]@) }
+pub trait JoinExt { fn join_(&self, sep: &str) -> String; }
+impl JoinExt for Vec<String> {
     #[verifier::external_body]
-    pub fn path(&self) -> (r: String) ensures r@ == render(route_of(self.path@)) { unimplemented!() }
+    fn join_(&self, sep: &str) -> (r: String) ensures r@ == join_spec(texts_of(self@), sep@) { unimplemented!() }
 }
+/// `v[1..].iter().map(f).collect::<Vec<_>>()` (W1): f applied to every element but the first, in order; `v[1..]`
+/// panics on an empty vector
+#[verifier::external_body]
+pub fn map_tail<T, U, G: Fn(&T) -> U>(v: &Vec<T>, f: G) -> (r: Vec<U>)
+    requires v@.len() >= 1, forall|x: &T| call_requires(f, (x,)),
+    ensures r@.len() == v@.len() - 1, forall|i: int| 0 <= i < r@.len() ==> call_ensures(f, (&v@[i + 1],), #[trigger] r@[i]),
+{ unimplemented!() }
 /// openapiv3::Info / openapiv3::OpenAPI: the document is modelled only by the LOG of operations emitted into it
 #[verifier::external_body]
 pub struct OpenApiInfo { _p: u8 }
